@@ -11,26 +11,28 @@ EXTENDS Ledger
 
 CONSTANTS MCForks, MaxAmt, MaxDepth, MaxTxs
 
-VARIABLE ntx        \* transactions started so far
+VARIABLES ntx,       \* transactions started so far
+          nblk       \* blocks started so far (every block mints: without a bound the model is infinite)
 
 Init0 == /\ fork \in MCForks
          /\ bal = <<3, 1, 0>> /\ balu = <<0, 0, 0>>
          /\ burned = 0 /\ minted = 0 /\ mintedu = 0 /\ total0 = [w |-> 4, u |-> 0]
          /\ blk = NoBlk /\ tx = NoTx /\ frames = << >> /\ float = 0 /\ escrow = 0 /\ sd = {} /\ created = {}
-         /\ ntx = 0
+         /\ ntx = 0 /\ nblk = 0
 
 Pow == fork < 10                                   \* before the merge: block reward
 Bf == IF fork >= London THEN 1 ELSE 0
 
 MCNext ==
-  \/ /\ \E wd \in {<< >>, << [a |-> 3, amt |-> 1] >>} :
+  \/ /\ nblk < 1 /\ nblk' = nblk + 1
+     /\ \E wd \in {<< >>, << [a |-> 3, amt |-> 1] >>} :
           StartBlock(fork, Bf, 2, wd, IF Pow THEN << [a |-> 2, units |-> 2] >> ELSE << >>)
      /\ UNCHANGED ntx
-  \/ /\ ntx < MaxTxs /\ ntx' = ntx + 1
+  \/ /\ ntx < MaxTxs /\ ntx' = ntx + 1 /\ UNCHANGED nblk
      /\ \E gas \in 1..2, tipcap \in 0..1, blobfee \in {0, 1} :
           /\ (blobfee = 1 => fork >= Cancun)
           /\ StartTx(1, gas, Bf + 1, tipcap, blobfee)
-  \/ UNCHANGED ntx /\
+  \/ UNCHANGED <<ntx, nblk>> /\
      \/ \E amt \in 1..(2 * MaxAmt + 1) : GasBuy(1, amt) \/ GasReturn(1, amt) \/ Tip(2, amt)
      \/ \E amt \in 1..MaxAmt : SdBurn(2, amt)
      \/ \E amt \in 1..MaxAmt : (float = 0 /\ \E a \in {1, 2} : Debit(a, amt))
@@ -43,7 +45,7 @@ MCNext ==
      \/ SkipZeroWithdrawal
      \/ EndBlock
 
-MCSpec == Init0 /\ [][MCNext]_<<lvars, ntx>>
+MCSpec == Init0 /\ [][MCNext]_<<lvars, ntx, nblk>>
 
 Bounded == burned <= 8
 =============================================================================
